@@ -252,13 +252,13 @@ Definition rdb_op (s : mst) (op : list tok) : list tok * mst :=
                   | _ => 0
                   end
                 else 1 in
-              ([TI 0; TI tie], {| m_ds := map (purge t) ds; m_disk := Some b |})
+              ([TI 0; TI tie], {| m_ds := ds; m_disk := Some b |})
         | _ => ([TB (bs "BADOP")], s)
         end
       else if beq name (bs "MSAVE") then
         match rest with
         | [TI _; TI wall] => let b := model_save t wall ds in
-                             ([TI (len b)], {| m_ds := map (purge t) ds; m_disk := Some b |})
+                             ([TI (len b)], {| m_ds := ds; m_disk := Some b |})
         | _ => ([TB (bs "BADOP")], s)
         end
       else if beq name (bs "MBYTES") then
@@ -304,8 +304,7 @@ Definition rdb_op (s : mst) (op : list tok) : list tok * mst :=
            failure and leaves the dump unchanged, a later save succeeds (Props/C10.v); the
            number of calls is that of the writer model.  [TI wall] = ctime*1000 read by the harness *)
         match rest with
-        | [TI wall] => ([TI (calls_save ver_default (wall / 1000) t ds); TI 1; TI 1; TI 1],
-                        {| m_ds := map (purge t) ds; m_disk := m_disk s |})
+        | [TI wall] => ([TI (calls_save ver_default (wall / 1000) t ds); TI 1; TI 1; TI 1], s)
         | _ => ([TB (bs "BADOP")], s)
         end
       else if beq name (bs "BGSWEEP") then
@@ -315,8 +314,7 @@ Definition rdb_op (s : mst) (op : list tok) : list tok * mst :=
            accepted and publishes the newer data; likewise failing SAVE then BGSAVE and failing
            BGSAVE then SAVE *)
         match rest with
-        | [TI wall] => ([TI (calls_save ver_default (wall / 1000) t ds); TI 1; TI 1; TI 1; TI 1; TI 1; TI 1],
-                        {| m_ds := map (purge t) ds; m_disk := m_disk s |})
+        | [TI wall] => ([TI (calls_save ver_default (wall / 1000) t ds); TI 1; TI 1; TI 1; TI 1; TI 1; TI 1], s)
         | _ => ([TB (bs "BADOP")], s)
         end
       else if beq name (bs "TEARSTRESS") then ([TI 1], s)   (* schedule-dependent observation, judged only *)
